@@ -8,8 +8,8 @@ fn key(s: &str) -> String {
     format!("{P}/{s}")
 }
 
-/// one of the twelve primitive scalar types
-trait Prim: NumCast + Copy + Debug + PartialEq + Send + Sync + 'static {
+/// one of the twelve primitive scalar types (all of them are cgmath scalars: `cast` may ask for that)
+trait Prim: cgmath::BaseNum + NumCast + Copy + Debug + PartialEq + Send + Sync + 'static {
     const NAME: &'static str;
     const FLOAT: bool;
     fn alphabet() -> Vec<Self>;
